@@ -3077,3 +3077,11 @@ impl<const RICE_MAX: u32, I: SignedInteger> ToBitStream for ResidualPartition<RI
         }
     }
 }
+
+// verification hook (add-only): harnesses live outside the repository and
+// are compiled only by the Kani compiler, which is what sets `cfg(kani)`
+#[cfg(kani)]
+#[allow(dead_code, unused_imports, unused_variables, missing_docs)]
+mod verif_kani {
+    include!(concat!(env!("FLAC_CODEC_VERIF_KANI"), "/k_stream.rs"));
+}
